@@ -111,6 +111,15 @@ def entries() -> t.List[t.Tuple[str, dict, t.List[dict]]]:
     add('oneof_priv_anc', {'nodes': {'I': P(('x', 'plain')), 'HA': P(('p', 'in', 'I')), 'A': P(('p', 'in', 'HA')),
                                      'HB': P(('p', 'in', 'I')), 'B': P(('p', 'in', 'HB')),
                                      'O': P(('o', 'oneof', ['A', 'B']))}, 'input': 'I', 'output': 'O'})
+    # a failing branch of a candidate cancels a still-pending sibling task of the same candidate (D5 probe)
+    add('oneof_cancel_sibling', {'nodes': {'I': P(('x', 'plain')), 'PP': P(('i', 'in', 'I')), 'Q': P(('i', 'in', 'I')),
+                                           'N': P(('p', 'in', 'PP')), 'K1': P(('n', 'in', 'N'), ('q', 'in', 'Q')),
+                                           'K2': P(('i', 'in', 'I')), 'O': P(('v', 'oneof', ['K1', 'K2']))},
+                                 'input': 'I', 'output': 'O'})
+    add('oneof_cancel_sibling2', {'nodes': {'I': P(('x', 'plain')), 'PP': P(('i', 'in', 'I')), 'Q': P(('i', 'in', 'I')),
+                                            'R': P(('q', 'in', 'Q')), 'K1': P(('p', 'in', 'PP'), ('r', 'in', 'R')),
+                                            'K2': P(('i', 'in', 'I')), 'O': P(('v', 'oneof', ['K1', 'K2']))},
+                                  'input': 'I', 'output': 'O'})
     add('oneof_chained', {'nodes': {'I': P(('x', 'plain')), 'A': P(('p', 'in', 'I')), 'B': P(('p', 'in', 'I')),
                                     'M': P(('o', 'oneof', ['A', 'B'])), 'C': P(('p', 'in', 'M')), 'D': P(('p', 'in', 'I')),
                                     'O': P(('o', 'oneof', ['C', 'D']))}, 'input': 'I', 'output': 'O'},
@@ -142,6 +151,28 @@ def entries() -> t.List[t.Tuple[str, dict, t.List[dict]]]:
                                              'D': P(('c', 'switch', {'switch': 'W', 'cases': [['a', 'A'], ['b', 'B']], 'name': 'swr'})),
                                              'O': P(('r', 'rec', {'start': 'S', 'dest': 'D', 'max': 1}))},
                                    'input': 'I', 'output': 'O'})
+    # --- nestings (mix)
+    add('switch_in_oneof', {'nodes': {'I': P(('x', 'plain')), 'S': P(('p', 'in', 'I')), 'XX': P(('p', 'in', 'I')),
+                                      'Y': P(('p', 'in', 'I')),
+                                      'A': P(('c', 'switch', {'switch': 'S', 'cases': [['a', 'XX'], ['b', 'Y']], 'name': 'swo'})),
+                                      'B': P(('p', 'in', 'I')), 'O': P(('o', 'oneof', ['A', 'B']))},
+                            'input': 'I', 'output': 'O'},
+        [{'S': ['label:a'], 'XX': ['raise:E1'], 'B': ['raise:E2']}])
+    add('switch_in_oneof_deep', {'nodes': {'I': P(('x', 'plain')), 'S': P(('p', 'in', 'I')), 'H': P(('p', 'in', 'I')),
+                                           'XX': P(('p', 'in', 'H')), 'Y': P(('p', 'in', 'I')),
+                                           'A': P(('c', 'switch', {'switch': 'S', 'cases': [['a', 'XX'], ['b', 'Y']], 'name': 'swo'})),
+                                           'B': P(('p', 'in', 'I')), 'O': P(('o', 'oneof', ['A', 'B']))},
+                                 'input': 'I', 'output': 'O'})
+    add('oneof_in_switch', {'nodes': {'I': P(('x', 'plain')), 'S': P(('p', 'in', 'I')), 'A': P(('p', 'in', 'I')),
+                                      'B': P(('p', 'in', 'I')), 'N': P(('o', 'oneof', ['A', 'B'])), 'C': P(('p', 'in', 'I')),
+                                      'O': P(('c', 'switch', {'switch': 'S', 'cases': [['a', 'N'], ['b', 'C']], 'name': 'swn'}))},
+                            'input': 'I', 'output': 'O'},
+        [{'S': ['label:a'], 'A': ['raise:E1'], 'B': ['raise:E2']}])
+    add('rec_in_switch', {'nodes': {'I': P(('x', 'plain')), 'S': P(('p', 'in', 'I')), 'T': P(('p', 'in', 'I')),
+                                    'D': P(('p', 'in', 'T')), 'A': P(('r', 'rec', {'start': 'T', 'dest': 'D', 'max': 1})),
+                                    'B': P(('p', 'in', 'I')),
+                                    'O': P(('c', 'switch', {'switch': 'S', 'cases': [['a', 'A'], ['b', 'B']], 'name': 'swr2'}))},
+                          'input': 'I', 'output': 'O'})
     return E
 
 
